@@ -216,6 +216,16 @@ func main() {
 	}
 	cs := hx.NewCases(a.Out, "From V.C18 Require Import Model Harness.", "case", "check", perShard)
 
+	// safety net: a panic of the implementation outside the per-case guards still yields a result file
+	defer func() {
+		if p := recover(); p != nil {
+			res.Violate("C18/panic:unguarded", fmt.Sprint(p), "see harness.log")
+			cs.Close()
+			res.ModelCases = cs.Total()
+			res.Write(a.Out)
+		}
+	}()
+
 	unsupported := 0
 	altNearest, altPrec64, altProbes := 0, 0, 0
 
@@ -497,7 +507,18 @@ func main() {
 	// ---- (4) malformed stream: mutations of valid strings ----
 	alpha := []byte(" +-._eEpPxX0123456789infINFa,\x00\xff")
 	for i := 0; i < a.N/5; i++ {
-		base := []byte(utility.BigIntToStr(randInt(rng)))
+		seedInt := randInt(rng)
+		var seedStr string
+		func() {
+			defer func() {
+				if p := recover(); p != nil {
+					res.Violate("C18/panic:BigIntToStr", fmt.Sprint(p), map[string]interface{}{"n": seedInt.String()})
+					seedStr = seedInt.String()
+				}
+			}()
+			seedStr = utility.BigIntToStr(seedInt)
+		}()
+		base := []byte(seedStr)
 		if rng.Intn(3) == 0 {
 			base = []byte([]string{"Inf", "-inf", "1e5", "1.5p-3", ".5", "12.", "+7.25"}[rng.Intn(7)])
 		}
